@@ -58,10 +58,10 @@ var semKinds = map[string][]string{
 }
 
 type c17Case struct {
-	Part string   `json:"part"`
-	Devs string   `json:"deviations,omitempty"`
-	Text string   `json:"text,omitempty"`
-	Ops  []c17Op  `json:"ops,omitempty"`
+	Part string  `json:"part"`
+	Devs string  `json:"deviations,omitempty"`
+	Text string  `json:"text,omitempty"`
+	Ops  []c17Op `json:"ops,omitempty"`
 }
 
 func semFull(s *wire.Session, uri string) ([]int, string, string) {
